@@ -50,6 +50,9 @@ def library(n_small=2, n_big=3):
     out.append(_d("scond", [S("sc", "scatter", ["in"], ["el", "sz"]), S("c", "cond", ["el"], ["e2"]),
                             S("ga", "gather", ["e2", "sz"], ["out"])],
                   {"in": [L(range(1, n_big + 1))]}, ["out"], {"scatter-gather", "conditional", "forced-gather"}))
+    out.append(_d("scondall", [S("sc", "scatter", ["in"], ["el", "sz"]), S("c", "cond", ["el"], ["e2"]),
+                               S("ga", "gather", ["e2", "sz"], ["out"])],
+                  {"in": [L([5])]}, ["out"], {"scatter-gather", "conditional", "forced-gather", "all-dropped"}))
     out.append(_d("two-out", [S("a", "exec", ["in"], ["o1"]), S("b", "fwd", ["in"], ["p"]), S("c", "exec", ["p"], ["o2"])],
                   {"in": [V(2)]}, ["o1", "o2"], {"jobs", "two-outputs"}))
     out.append(_d("dot", [S("s1", "scatter", ["i1"], ["a", "z1"]), S("s2", "scatter", ["i2"], ["b", "z2"]),
@@ -65,7 +68,7 @@ def library(n_small=2, n_big=3):
     out.append(_d("crossx", [S("s1", "scatter", ["i1"], ["a", "z1"]), S("s2", "scatter", ["i2"], ["b", "z2"]),
                              S("x", "cart", ["a", "b"], ["a2", "b2"]), S("j", "exec", ["a2", "b2"], ["c"]),
                              S("m", "mul", ["z1", "z2"], ["zz"]), dict(S("ga", "gather", ["c", "zz"], ["out"]), depth=2)],
-                  {"i1": [L([1, 2])], "i2": [L([11, 12])]}, ["out"],
+                  {"i1": [L([1, 2] if n_big > 3 else [1])], "i2": [L([11, 12])]}, ["out"],
                   {"scatter-gather", "combinator", "cross-product", "jobs", "multi-input"}))
     out.append(_d("cross0", [S("s1", "scatter", ["i1"], ["a", "z1"]), S("s2", "scatter", ["i2"], ["b", "z2"]),
                              S("x", "cart", ["a", "b"], ["a2", "b2"]), S("j", "fwd", ["a2", "b2"], ["c"]),
